@@ -30,6 +30,15 @@ func (payload *CreateCampaignPayload) Validate(blockTime uint64) error {
 		return sdkerrors.Wrap(sdkerrtypes.ErrInvalidRequest, err.Error())
 	}
 
+	// a negative component is never paid out but would be netted against the other one when the
+	// campaign pool is charged, so the pool would be charged less than what is distributed.
+	if (!payload.RewardAmount.MainAccountAmount.IsNil() && payload.RewardAmount.MainAccountAmount.IsNegative()) ||
+		(!payload.RewardAmount.SubaccountAmount.IsNil() && payload.RewardAmount.SubaccountAmount.IsNegative()) ||
+		(!payload.RewardAmount.MainAccountPercentage.IsNil() && payload.RewardAmount.MainAccountPercentage.IsNegative()) ||
+		(!payload.RewardAmount.SubaccountPercentage.IsNil() && payload.RewardAmount.SubaccountPercentage.IsNegative()) {
+		return sdkerrors.Wrapf(sdkerrtypes.ErrInvalidRequest, "reward amounts and percentages can not be negative")
+	}
+
 	switch payload.RewardAmountType {
 	case RewardAmountType_REWARD_AMOUNT_TYPE_FIXED:
 		if (!payload.RewardAmount.MainAccountPercentage.IsNil() &&
